@@ -458,6 +458,9 @@ func (c *conn) WriteTo(w io.Writer) (n int64, err error) {
 }
 
 func (c *conn) Flush() error {
+	if c.isDatagram { // nothing is ever buffered for a datagram socket
+		return nil
+	}
 	if !c.opened {
 		return net.ErrClosed
 	}
